@@ -134,3 +134,75 @@ Proof.
   eexists. eexists. eexists. split; [vm_compute; reflexivity|].
   repeat split; vm_compute; reflexivity.
 Qed.
+
+(** * The general session theorem (Proofs/C19_flagship.v)
+
+    For EVERY namespace tree, start-up state, body table, request list,
+    environment schedule and schema [S]: if every executed call was requested
+    by name and its own-path collection configuration conforms to [S]
+    ([call_cfg_ok]: [level_okb S]) and every edit of every executed body is
+    inside C06's [op_ok S] -- the boolean [session_guard] -- then the session
+    runs to the end ([session] returns [Ok]), and the records satisfy
+    [views_ok]: the k-th record is of the k-th call; the collection level in
+    force inside it is [configuration ns <its own path>]; the view on entry is
+    the replay of the journal of ALL earlier bodies' edits over the merge of
+    the levels then in force (C06's [sim]/[replay] reading, [view_is]); the
+    view on exit is the same with the body's own edits added to the journal;
+    and the only errors that can end the session are the documented refusals
+    and missing-key errors of a body's own edits ([benign_err]) -- never an
+    internal error of the machinery.
+    Guard, exactly: [is_node S], [start [] i = Ok c0], [good0 S c0],
+    [session_guard S ns bodies (session_calls reqs dflt dd)].  The guard
+    excludes F-C19 (pre/post hooks and the implicitly chosen default task are
+    calls without a name: [call_cfg_ok] is false for them).
+    What is missing with respect to the boolean [C19Spec.spec_ok]: the
+    statement is in C06's semantic terms; the per-path [expected] of
+    Spec/C19Spec.v (environment conversion included), [write_ok] and the
+    outcome list are compared with the model by the bounded sweep
+    [C19_task_view_bounded_980] and by the correspondence runs only. *)
+From InvokeVerif Require Import Model.ConfigModel Spec.C06Spec Proofs.C06_shapes Proofs.C06_track
+     Proofs.C06_refine Proofs.C19_flagship.
+
+Theorem C19_session_views_partial :
+  forall S ns i bodies reqs dflt dd envs c0,
+  is_node S = true -> start [] i = Ok c0 -> good0 S c0 = true ->
+  let bf := fun t => match find (fun b => Nat.eqb (fst b) t) bodies with
+                     | Some b => snd b | None => [] end in
+  let calls := session_calls reqs dflt dd in
+  session_guard S ns bf calls = true ->
+  exists recs er,
+    session ns i bodies reqs dflt dd envs = Ok (recs, er) /\
+    views_ok S [] ns bf [] calls recs /\
+    (forall e, er = Some e -> benign_err e).
+Proof. exact session_views. Qed.
+
+(** The same from any state satisfying C06's invariant (any journal so far). *)
+Theorem C19_run_calls_views_partial :
+  forall S fs ns bodies, is_node S = true -> forall calls c J envs,
+  good S c J -> session_guard S ns bodies calls = true ->
+  views_ok S fs ns bodies J calls (fst (run_calls fs ns c bodies calls envs)) /\
+  (forall e, snd (run_calls fs ns c bodies calls envs) = Some e -> benign_err e).
+Proof. exact run_calls_views. Qed.
+
+(** The collection level [views_ok] names is the C17 reference: the deep
+    merge of the configurations along the task's own path, innermost first. *)
+Theorem C19_own_path_level_partial :
+  forall ns n t cfgs d,
+  ns_wf ns = true -> ns_canon ns = true ->
+  ref_path ns (segs_of n) = Some (t, cfgs) -> all_compatible cfgs = true ->
+  configuration ns n = Ok d ->
+  wf (Node d) = true /\
+  forall p, leaf_at p (Node d) = first_some (map (fun g => leaf_at p (Node g)) cfgs).
+Proof. exact own_path_level. Qed.
+
+(** Non-vacuity: the guard holds for two named requests over the three-collection
+    tree of the sweep with an editing body. *)
+Example C19_example_session_guard :
+  let bodies := [(1, [SetV Item ["k"] "n" (Leaf (VInt 5)); Del Item ["k"] "top"])] in
+  let bf := fun t => match find (fun b => Nat.eqb (fst b) t) bodies with
+                     | Some b => snd b | None => [] end in
+  let reqs := [("a.t1", leaf_call 1); ("b.t2", leaf_call 2)] in
+  exists c0, start [] init0 = Ok c0 /\ good0 S_ex c0 = true /\
+             session_guard S_ex ns_tree bf (session_calls reqs None true) = true /\
+             forallb call_named (session_calls reqs None true) = true.
+Proof. exact flagship_example. Qed.
